@@ -196,7 +196,16 @@ class ProgGen:
                 else:
                     items.append(leaf())
             tail = None
-            if self.has("destructure") and rng.random() < 0.15:
+            if depth == 0 and prefix == "A" and self.has("captures") and self.has("rest") and rng.random() < 0.12:
+                # the parameter list ENDS in a capture: (K L @ others (P Q)) — `others` is the rest of the
+                # arguments, P and Q its first two
+                self.use("captures")
+                self.use("destructure")
+                cap = self.fresh(prefix)
+                names.append(cap)
+                types[cap] = "any"
+                tail = ("cap", cap, ("plist", [leaf() for _ in range(rng.randint(1, 2))], None))
+            elif self.has("destructure") and rng.random() < 0.15:
                 self.use("destructure")
                 tail = leaf()
                 if self.has("dotcall") and prefix == "A" and depth == 0:
@@ -283,7 +292,7 @@ class ProgGen:
         rng = self.rng
         if ty == "bool":
             return self.boolexpr(sc, depth)
-        if depth > 0 and rng.random() < 0.10:
+        if depth > 0 and rng.random() < 0.06:
             # the same non-trivial subexpression again (what common-subexpression elimination looks for)
             cur = set(sc.vars.items())
             cands = [e for (t, vs, e) in self.__dict__.get("recent", []) if t == ty and vs <= cur]
@@ -685,6 +694,12 @@ class ProgGen:
             self.use("manyparams")
             n = rng.randint(9, 40)
         pat, types, argv, shape = self.pattern(n, allow_nested=(n <= 8), prefix="P")
+        if n >= 12 and not self.classic:
+            # the modern compiler needs from tens of seconds (cl21) to many minutes (cl23+) for nested binding
+            # forms under very wide parameter lists (each hoisted binding form carries the whole parameter
+            # list): a compile-time matter (C14's subject), and it would dominate every run; wide parameter
+            # lists are kept, binding forms go with the narrower ones
+            self.features -= {"lets", "assign", "lambda"}
         helpers = []
         if self.has("constants"):
             for _ in range(rng.randint(0, 2)):
